@@ -49,9 +49,10 @@ Commit == /\ last' = [op |-> "commit", ok |-> TRUE]
                        IF Merge /\ n > 1 THEN [SubSeq(logs, 1, n - 1) EXCEPT ![n - 1] = MergeInto(@, logs[n], 1)]
                        ELSE SubSeq(logs, 1, n - 1)
 
+(* a whole-key write, through Facts::set or through set_nested with a path of one segment *)
 Set(k, v) == /\ data' = [data EXCEPT ![k] = v] /\ adata' = [adata EXCEPT ![k] = v]
              /\ logs' = LogTop(k) /\ UNCHANGED snaps
-             /\ last' = [op |-> "set", k |-> k, v |-> v, ok |-> TRUE]
+             /\ \E via \in {"set", "nested"} : last' = [op |-> "set", k |-> k, v |-> v, via |-> via, ok |-> TRUE]
 
 (* set_nested("k.f", x): logs the top-level key, fails without effect unless k holds an object *)
 SetNested(k, x) ==
